@@ -391,6 +391,12 @@ func c27GenUpdate(t *rapid.T, p c27GenPeer) ([]byte, string) {
 	if rapid.IntRange(0, 3).Draw(t, "comm") == 0 {
 		attrs = append(attrs, c27AttrCommunities(0xffffff01, 65000<<16|1)...)
 	}
+	if rapid.IntRange(0, 3).Draw(t, "xattr") == 0 {
+		// one more attribute of any type code (biased to the assigned range), short value
+		ty := rapid.OneOf(rapid.IntRange(16, 40), rapid.IntRange(0, 255)).Draw(t, "xtype")
+		fl := rapid.SampledFrom([]uint8{0xc0, 0xe0, 0x80, 0x40}).Draw(t, "xflags")
+		attrs = append(attrs, c27Attr(fl, uint8(ty), rapid.SliceOfN(rapid.Byte(), 0, 12).Draw(t, "xval"))...)
+	}
 	if v6 {
 		var nh [16]byte
 		nh[0], nh[1], nh[15] = 0x20, 0x01, 9
